@@ -417,6 +417,27 @@ func opInfraction(w *World) *Op {
 	return op
 }
 
+// opInfractionPair: two launched consumers request a change in the same block (same due time, one shared schedule slot).
+func opInfractionPair(w *World) *Op {
+	var cands []*CInfo
+	for _, ci := range w.consumersIn(providertypes.CONSUMER_PHASE_LAUNCHED) {
+		if ci.Owner != nil {
+			cands = append(cands, ci)
+		}
+	}
+	if len(cands) < 2 {
+		return nil
+	}
+	p := w.Rnd.Perm(len(cands))
+	a, b := cands[p[0]], cands[p[1]]
+	op := &Op{Name: "infraction-pair"}
+	for _, ci := range []*CInfo{a, b} {
+		op.Specs = append(op.Specs, TxSpec{Signer: ci.Owner, Msgs: []sdk.Msg{&providertypes.MsgUpdateConsumer{Owner: ci.Owner.Addr.String(), ConsumerId: ci.ID, InfractionParameters: w.randInfraction(false)}}, Tag: "update-consumer:infraction"})
+	}
+	w.Op("update-consumer %s and %s: infraction (same block)", a.ID, b.ID)
+	return op
+}
+
 func opRemoveConsumer(w *World) *Op {
 	ci := w.randConsumer(providertypes.CONSUMER_PHASE_LAUNCHED)
 	if ci == nil || ci.Owner == nil {
